@@ -76,6 +76,9 @@ for fl in ("global", "thread", "async"):
         add(fl, [f"limit = {n}"], dict(limit=n))
     for t in (1, 2, 3):
         add(fl, [f"ttl = {t}", "limit = 2"], dict(ttl=t, limit=2))
+    # ttl = 0 is a value like any other: every entry is expired at once
+    add(fl, ["ttl = 0", "limit = 2"], dict(ttl=0, limit=2))
+    add(fl, ["ttl = 0"], dict(ttl=0))
     for p in POLS:
         add(fl, [f'policy = "{p}"', "limit = 2"], dict(policy=p, limit=2))
     for m, b in MEM.items():
